@@ -23,7 +23,7 @@ ID = "C10"
 MANIFEST = {
     "level": "Bounded model checking of the non-recursive queue discipline: the real _NonrecursivePickler is executed "
              "symbolically on top of an abstract recursive base pickler; for every assignment of action programs "
-             "(<= 3 objects x <= 3 (thorough: 4) actions from {write, save child, memoize}; children, sharing and cycles symbolic) the "
+             "(<= 3 objects x <= 3 actions, thorough also 2 x 4, from {write, save child, memoize}; children, sharing and cycles symbolic) the "
              "token stream must equal the recursive base class's stream, and dump()'s call depth must be independent of "
              "chain length (chains 2..7). Complemented by concrete replays (NOT solver-decided, labelled '[native replay]'): "
              "real nrpickler.dumps -> pickle.loads round trips of every explored graph shape for protocols 0-5 "
@@ -40,7 +40,7 @@ MANIFEST = {
 }
 
 BOUNDS = {"quick": {"objects": "2x3, 3x3 actions", "chain_lengths": "2..7", "roundtrip_graphs": "3 vertices, 2 links, 1 universe"},
-          "thorough": {"objects": "2x3, 3x3, 3x4 actions", "chain_lengths": "2..9", "roundtrip_graphs": "3 vertices, 2-3 links"}}
+          "thorough": {"objects": "2x3, 3x3, 2x4 actions", "chain_lengths": "2..9", "roundtrip_graphs": "3 vertices, 2-3 links"}}
 TIME_BUDGET = {"quick": 400, "thorough": 1200}
 STUBS = ["dill.Pickler -> abstract recursive pickler over symbolic action programs (harness source, also used natively "
          "under the real nrpickler module)", "pickle / io -> real modules (constants only)"]
@@ -171,10 +171,11 @@ def configs(tier):
     out = [{"mode": "stream", "nobj": 2, "nact": 3}, {"mode": "stream", "nobj": 3, "nact": 3},
            {"mode": "stream", "nobj": 2, "nact": 3, "leaf": True},
            # objects that memoise themselves after their children (tuples, by-value classes): known finding C10-KF1
-           {"mode": "stream", "nobj": 2 if tier == "quick" else 3, "nact": 3, "late_memo": True},
+           {"mode": "stream", "nobj": 2, "nact": 3, "late_memo": True},
            {"mode": "kf_tuple"}, {"mode": "kf_byvalue"}]
     if tier != "quick":
-        out.append({"mode": "stream", "nobj": 3, "nact": 4})
+        out.append({"mode": "stream", "nobj": 2, "nact": 4})
+        out.append({"mode": "stream", "nobj": 3, "nact": 2, "leaf": True})
     out.append({"mode": "depth", "lengths": [2, 3, 5, 7] if tier == "quick" else [2, 3, 5, 7, 9]})
     for cs in ([["DE", "UE"]] if tier == "quick" else [["DE", "UE"], ["DE", "DE"], ["SD", "TE"]]):
         out.append({"mode": "roundtrip", "classes": cs})
